@@ -50,6 +50,11 @@ class AliasPolicy(BasePolicy):
     def initial(self, flow):
         return dict(self.seeds)
 
+    def eval_unpack(self, value, i, n, state, flow):
+        if isinstance(value, ast.Call):
+            return self.summarise_call(value, state, flow, index=i)
+        return super().eval_unpack(value, i, n, state, flow)
+
     def eval(self, expr, state, flow):
         if expr is None:
             return EMPTY
@@ -106,6 +111,30 @@ def alias_violations(prog, fn: FunctionInfo, seeds: Dict[str, frozenset]):
         if al:
             out.append((node, al, what, canon(tgt)))
     return out, fl
+
+
+def _container_keys_verbatim(ctx, prog, O):
+    """validate_option_names compares the names the *user wrote* (kept in ``useroptions``) with the keys of the mapping.  If
+    ``__setitem__`` / ``__getitem__`` / ``__contains__`` transform the key (strip, lower-casing, aliases), a mis-spelt name is
+    stored under a valid key and passes validation: the key handed to the underlying dict must be the parameter itself."""
+    for mname in ("__setitem__", "__getitem__", "__delitem__", "__contains__"):
+        m = O.methods.get(mname)
+        if m is None:
+            continue
+        params = [p for p in m.params if p != "self"]
+        if not params:
+            continue
+        key = params[0]
+        rebound = [s_ for t, v, s_, k in iter_stores(m.node) if isinstance(t, ast.Name) and t.id == key]
+        calls = [c for c in ast.walk(m.node) if isinstance(c, ast.Call) and isinstance(c.func, ast.Attribute) and c.func.attr == mname and len(c.args) >= 2]
+        if rebound:
+            ctx.fail(m, rebound[0], f"Options.{mname} rewrites the option name before using it ('{norm_stmt(rebound[0])[:60]}'): names that differ from a defined option only by that rewriting are accepted although they do not exist", construct=f"Options.{mname} rewrites its key")
+            continue
+        if not calls:
+            ctx.undecided(f"Options.{mname} does not delegate to dict.{mname}")
+            continue
+        k = calls[0].args[1]
+        ctx.check(isinstance(k, ast.Name) and k.id == key, m, calls[0], f"Options.{mname} passes its key unchanged", f"Options.{mname} hands '{canon(k)}' to the underlying dict instead of the name it was given", construct=f"Options.{mname} key {canon(k)[:40]}")
 
 
 def check(ctx):
@@ -317,5 +346,8 @@ def check(ctx):
     # ------------------------------------------------------------------ R6
     ctx.rule("R6", "no mutable state shared between instances", floor=3)
     _shared_state(ctx, prog, R)
+    # ------------------------------------------------------------------ R7
+    ctx.rule("R7", "the options container stores and looks up names exactly as given (no normalisation between the name that is validated and the name that is stored)", floor=2)
+    _container_keys_verbatim(ctx, prog, O)
     ctx.assume("basic slicing / atleast_2d / asarray / reshape may return views; copy(), arithmetic, np.array and fancy indexing return fresh arrays")
     ctx.assume("option values that are themselves mutable objects are not tracked beyond the dict level")
